@@ -16,7 +16,10 @@ import (
 	"math"
 	"os"
 	"strconv"
+	"runtime/debug"
 	"strings"
+	"syscall"
+	"unsafe"
 )
 
 type entry struct {
@@ -60,6 +63,7 @@ func Run(path string, fn func()) (outcome string, observed []string) {
 
 func RunScript(s *Script, fn func()) (outcome string, observed []string) {
 	cur, pos, obs = s, 0, nil
+	debug.SetPanicOnFault(true)
 	defer func() {
 		observed = obs
 		if r := recover(); r != nil {
@@ -146,9 +150,28 @@ func Bytes(n int) []byte {
 	if err != nil || len(b) != n {
 		panic(mismatch{fmt.Sprintf("bytes: script has %d bytes, code asks %d", len(b), n)})
 	}
-	out := make([]byte, n)
+	out := guarded(n)
 	copy(out, b)
 	return out
+}
+
+// guarded returns an n-byte slice (cap n) that ends exactly at a PROT_NONE guard page, so that an
+// unchecked read past its end faults (turned into a panic by debug.SetPanicOnFault in RunScript).
+func guarded(n int) []byte {
+	if n == 0 {
+		return make([]byte, 0)
+	}
+	ps := syscall.Getpagesize()
+	pages := (n+ps-1)/ps + 1
+	mem, err := syscall.Mmap(-1, 0, pages*ps, syscall.PROT_READ|syscall.PROT_WRITE, syscall.MAP_ANON|syscall.MAP_PRIVATE)
+	if err != nil {
+		return make([]byte, n)
+	}
+	if err := syscall.Mprotect(mem[(pages-1)*ps:], syscall.PROT_NONE); err != nil {
+		return make([]byte, n)
+	}
+	end := (pages - 1) * ps
+	return mem[end-n : end : end]
 }
 
 // String returns a string of length n with arbitrary contents.
@@ -238,4 +261,30 @@ func render(v any) string {
 		return "err"
 	}
 	return fmt.Sprintf("?%T", v)
+}
+
+// Within reports whether sub lies inside b (an empty sub is trivially inside).
+func Within(sub []byte, b []byte) bool {
+	if len(sub) == 0 {
+		return true
+	}
+	if len(b) == 0 {
+		return false
+	}
+	ps := uintptr(unsafe.Pointer(unsafe.SliceData(sub)))
+	pb := uintptr(unsafe.Pointer(unsafe.SliceData(b)))
+	return ps >= pb && ps+uintptr(len(sub)) <= pb+uintptr(len(b))
+}
+
+// WithinStr is Within for a zero-copy string view.
+func WithinStr(s string, b []byte) bool {
+	if len(s) == 0 {
+		return true
+	}
+	if len(b) == 0 {
+		return false
+	}
+	ps := uintptr(unsafe.Pointer(unsafe.StringData(s)))
+	pb := uintptr(unsafe.Pointer(unsafe.SliceData(b)))
+	return ps >= pb && ps+uintptr(len(s)) <= pb+uintptr(len(b))
 }
